@@ -17,9 +17,28 @@ Model: `NtpVerif.Wire.parse` / `Packet.serialize` (`NtpPacket::{deserialize, ser
                         harness oracle on every accepted packet.
   unfixed_encoder_panics  F-C24 on the model of the unfixed `ReferenceIdRequest::serialize`.
 
+  stable_v3             `Stable` PROVED for NTPv3: an accepted v3 packet (header + optional MAC) encodes to exactly the
+                        received bytes (`v3_reencodes_exactly`), so the round trip is the identity from the start.
+  header_v34_reencode   header lemma (v3/v4): decoding 48 header bytes and encoding the result gives the bytes back.
+  mac_reencode          MAC lemma: a decoded MAC encodes to the bytes it was decoded from.
+  field_framing_readback  per-field lemma, framing: what every field encoder writes (`type, length, body`) is read
+                        back by `RawExtensionField::deserialize` as that type with the first `length-4` body bytes.
+  generic_field_roundtrip  per-field lemma for the six kinds encoded through `encode_framing`/`encode_padding`
+                        (unique identifier, cookie, placeholder, draft id, padding, unknown), with the v4 / v5 rules
+                        and any minimum size: encode → frame back → message = data ++ zero padding → encoding
+                        that message again (same position) yields the same bytes.
+
+Still missing for `Full` (v4 and v5 packets with extension fields), exactly:
+  (a) the sequence lemma `stream_of_encoded`: over `enc f₁ ++ … ++ enc fₙ ++ mac` the streamer yields one item per
+      field (by `field_framing_readback`) and stops at the MAC — needs the parse-origin invariant that without a MAC
+      the last field's wire length exceeds the 28-byte cut-off (otherwise `Full` is false: a 28-byte last field is
+      re-read as a MAC), v4 data lengths being multiples of 4, and unknown type ids avoiding the dispatched ids;
+  (b) the v5 header lemma (decode∘encode incl. idempotence of the leap rewrite) and the per-field lemmas of the two
+      v5 reference-id kinds.
+
 The model describes the tree with `fixes/C24-refid-request-encode.patch` applied.
 -/
-import NtpVerif.Proofs.WireRT
+import NtpVerif.Proofs.WireRT5
 
 namespace NtpVerif.C24
 open NtpVerif.Wire
@@ -51,6 +70,54 @@ def Stable (b : Bytes) : Prop :=
 
 /-- the complete property -/
 def Full : Prop := ∀ b, Stable b
+
+/-! #### NTPv3: the round trip is the identity -/
+
+/-- an accepted NTPv3 packet encodes to exactly the received bytes -/
+theorem v3_reencodes_exactly (dec : Dec) (ctx : Ctx) (b : Bytes) (p : Packet) (c : Option Cookie)
+    (h : parse dec ctx b = .ok p c) (hv : ∃ h3, p.header = .v3 h3) : p.serialize none none = .ok (b, none) := by
+  unfold parse at h
+  split at h
+  · rename_i p' c' hp
+    cases h
+    exact parseR_v3_exact hp hv
+  all_goals cases h
+
+/-- `Stable` for every input that is decoded as NTPv3 -/
+theorem stable_v3 (b : Bytes) (hv : ∀ p c, parse noDec .noCipher b = .ok p c → ∃ h3, p.header = .v3 h3) :
+    Stable b := by
+  intro p c hp
+  have hs := v3_reencodes_exactly noDec .noCipher b p c hp (hv p c hp)
+  exact ⟨b, none, hs, p, c, hp, hs⟩
+
+/-! #### building blocks of the general case -/
+
+theorem header_v34_reencode (data : Bytes) (h : HeaderV34) (hs : Nat)
+    (e : HeaderV34.deserialize data = .ok (h, hs)) :
+    ∃ b0 t, data = b0 :: t ∧ h.serialize (b0.toNat / 8 % 8) = .ok (data.take 48) :=
+  headerV34_reencode e
+
+theorem mac_reencode (data : Bytes) (m : Mac) (h : Mac.deserialize data = .ok m) : m.serialize = data :=
+  Wire.mac_reencode h
+
+theorem field_framing_readback (minSize ty a : Nat) (body rest : Bytes) (ver : Ver) (hty : ty < 65536)
+    (ha : a < 65536) (h4 : 4 ≤ a) (hmin : minSize ≤ a) (hv4 : ver = .v4 → a % 4 = 0)
+    (hbody : body.length = nm4 a - 4) :
+    rawDeserialize (toBE 2 ty ++ toBE 2 a ++ body ++ rest) minSize ver = .ok (ty, body.take (a - 4)) :=
+  raw_of_framed minSize ty a body rest ver hty ha h4 hmin hv4 hbody
+
+theorem generic_field_roundtrip (ty : Nat) (data rest : Bytes) (m : Nat) (ver : Ver) (hty : ty < 65536)
+    (hlen : nm4 (max (data.length + 4) m) < 65536) :
+    ∃ enc msg', encodeGeneric ty data m ver = .ok enc ∧
+      rawDeserialize (enc ++ rest) Gen.EF_V4_UNENCRYPTED_MINIMUM_SIZE ver = .ok (ty, msg') ∧
+      msg' = data ++ zeros (msg'.length - data.length) ∧
+      encodeGeneric ty msg' m ver = .ok enc :=
+  Wire.generic_field_roundtrip _ (by decide) ty data rest m ver hty hlen
+
+/-- non-vacuity: a v3 packet with a 20-byte MAC is accepted, and it is a v3 packet -/
+example : (match parse noDec .noCipher ((0x1b :: List.replicate 47 0) ++ List.replicate 20 7) with
+    | .ok p _ => (match p.header with | .v3 _ => p.mac.isSome | _ => false) | _ => false) = true := by
+  decide +kernel
 
 /-! #### F-C24 -/
 
@@ -102,3 +169,9 @@ end NtpVerif.C24
 #print axioms NtpVerif.C24.reencodes_no_keys
 #print axioms NtpVerif.C24.unfixed_encoder_panics
 #print axioms NtpVerif.C24.fixed_encoder_conservative
+#print axioms NtpVerif.C24.v3_reencodes_exactly
+#print axioms NtpVerif.C24.stable_v3
+#print axioms NtpVerif.C24.header_v34_reencode
+#print axioms NtpVerif.C24.mac_reencode
+#print axioms NtpVerif.C24.field_framing_readback
+#print axioms NtpVerif.C24.generic_field_roundtrip
